@@ -10,7 +10,9 @@ dropped) and compared with the canonical form of the input, transformed exactly
 as the adapter documents. Nothing of fontTools is used to compute expectations.
 """
 
+import copy
 import math
+import time
 import traceback
 
 from vf import geom
@@ -20,7 +22,8 @@ from vf.runner import Acc, HarnessError, fingerprint, hyp_collect, innermost_fra
 ID = "C14"
 LEVEL = "exploration"
 RULE = (
-    "Hypothesis-generated valid pen call sequences: segment protocol (moveTo/lineTo/curveTo incl. super-beziers and "
+    "generated valid pen call sequences (most built by a seeded generator whose seed Hypothesis draws, a share by "
+    "structured Hypothesis strategies with the same shape, plus 20 hand-written special cases): segment protocol (moveTo/lineTo/curveTo incl. super-beziers and "
     "short forms/qCurveTo with any number of off-curves/qCurveTo(*offs, None)/closePath/endPath/addComponent) and "
     "point protocol (beginPath/addPoint with smooth, name, identifier/endPath/addComponent, contours starting at any "
     "point), integer and float coordinates drawn from a small per-glyph pool so coincident points are frequent, a "
@@ -738,6 +741,20 @@ def check_seg(case, acc, record=True):
             exp, got = t2_normal_form(exp, t), t2_normal_form(got, t)
         compare(acc, "T2CharStringPen(roundTolerance=0)", case, got, exp, t)
         if mode != "int":
+            # (c) default rounding of float input: every coordinate of the decomposed cubic
+            # outline is rounded (floor(x + 0.5)); fed already decomposed so that the only
+            # arithmetic before rounding is BasePen's documented segment decomposition
+            pen = t2CharStringPen.T2CharStringPen(None, None)
+            gp.replay_ops(close_all(D), pen)
+            cs = pen.getCharString(private=priv, optimize=opt)
+            r = RecordingPen()
+            cs.draw(r)
+            full = elevate(geom.canon(close_all(D), drop_degenerate=False))
+            exp = drop_deg([dict(c, start=(ot_round(c["start"][0]), ot_round(c["start"][1])), segs=[(s_[0],) + tuple((ot_round(p[0]), ot_round(p[1])) for p in s_[1:]) for s_ in c["segs"]]) for c in full], 0.0, drop_empty=True)
+            got = geom.canon(r.value, drop_empty=True)
+            if opt:
+                exp, got = t2_normal_form(exp), t2_normal_form(got)
+            compare(acc, "T2CharStringPen(rounding)", case, got, exp, 0.0)
             return
         # (a) default rounding; integer lines and 3-point cubics are exact
         Da = []
@@ -1277,23 +1294,31 @@ def run_case(case, acc, record=True):
 
 def jobs(tier, seed):
     thorough = tier == "thorough"
-    m = 24 if thorough else 1
+    m = 20 if thorough else 1
     J = []
 
-    def add(kind, mode, count, n):
+    def add(gen, kind, mode, count, n):
         for i in range(count):
-            J.append(dict(kind=kind, mode=mode, name="%s-%s-%d" % (kind, mode, i), n=n, seed=subseed(seed, kind, mode, i)))
+            J.append(dict(gen=gen, kind=kind, mode=mode, name="%s-%s-%s-%d" % (gen, kind, mode, i), n=n, seed=subseed(seed, gen, kind, mode, i)))
 
-    add("seg", "int", 7 * m, 1250)
-    add("seg", "float", 4 * m, 1100)
-    add("pt", "int", 3 * m, 1400)
-    add("pt", "float", 2 * m, 1300)
-    add("alg", "mixed", 1 * m, 4000)
-    J.append(dict(kind="fixed", mode="int", name="fixed-cases"))
+    # structured Hypothesis strategies (slow to draw: ~10x the cost of the sub-checks)
+    add("hyp", "seg", "int", 4 * m, 200)
+    add("hyp", "seg", "float", 4 * m, 120)
+    add("hyp", "pt", "int", 3 * m, 200)
+    add("hyp", "pt", "float", 4 * m, 100)
+    # seeded generator, one Hypothesis draw (the seed) per case
+    add("fast", "seg", "int", 12 * m, 1500)
+    add("fast", "seg", "float", 8 * m, 1000)
+    add("fast", "pt", "int", 6 * m, 1500)
+    add("fast", "pt", "float", 4 * m, 1000)
+    add("fast", "alg", "mixed", 2 * m, 3000)
+    J.append(dict(gen="fixed", kind="fixed", mode="int", name="fixed-cases"))
     return J
 
 
 def strategy(job):
+    if job.get("gen") == "fast":
+        return gp.fast_case(job["kind"], job["mode"])
     if job["kind"] == "seg":
         return gp.seg_case(job["mode"])
     if job["kind"] == "pt":
@@ -1359,6 +1384,190 @@ def replay(case):
     acc = Acc()
     run_case(case, acc, record=False)
     return acc.failures
+
+
+# ---------------------------------------------------------------------------
+# minimisation of a failing case (used by the runner for the replay file)
+
+
+def _valid_pt_contour(c):
+    n = len(c)
+    if n <= 1:
+        return n == 1
+    types = [p[2] for p in c]
+    if "move" in types[1:]:
+        return False
+    if types[0] == "move":
+        if types[-1] is None:
+            return False
+        for i in range(1, n):
+            if types[i] == "line" and types[i - 1] is None:
+                return False
+        return True
+    for i in range(n):
+        if types[i] == "line" and types[i - 1] is None:
+            return False
+    return True
+
+
+def _simpler_numbers(v):
+    out = []
+    if isinstance(v, float):
+        for w in (0, int(v), round(v, 1)):
+            if w != v:
+                out.append(w)
+    elif isinstance(v, int) and v != 0:
+        out.append(0)
+        if abs(v) > 10:
+            out.append(int(v / 10))
+        if abs(v) > 1:
+            out.append(1 if v > 0 else -1)
+    return out
+
+
+def _candidates(case):
+    """Yield structurally smaller variants of a case (all still valid call sequences)."""
+    k = case["kind"]
+    if k == "alg":
+        for key in ("A", "B", "C", "tr", "sc", "skew"):
+            for i, v in enumerate(case[key]):
+                for w in _simpler_numbers(v):
+                    c = copy.deepcopy(case)
+                    c[key][i] = w
+                    if key in "ABC" and c[key][0] * c[key][3] - c[key][1] * c[key][2] == 0:
+                        continue
+                    yield c
+        if len(case["pts"]) > 1:
+            for i in range(len(case["pts"])):
+                c = copy.deepcopy(case)
+                del c["pts"][i]
+                yield c
+        for i, p in enumerate(case["pts"]):
+            for j in (0, 1):
+                for w in _simpler_numbers(p[j]):
+                    c = copy.deepcopy(case)
+                    c["pts"][i][j] = w
+                    yield c
+        return
+    body = "ops" if k == "seg" else "items"
+    # glyph set
+    for name in case["glyphs"]:
+        if case["glyphs"][name]:
+            c = copy.deepcopy(case)
+            c["glyphs"][name] = []
+            yield c
+    if list(case["T"]) != [1, 0, 0, 1, 0, 0]:
+        c = copy.deepcopy(case)
+        c["T"] = [1, 0, 0, 1, 0, 0]
+        yield c
+    for f, v in case["flags"].items():
+        if v:
+            c = copy.deepcopy(case)
+            c["flags"][f] = False
+            yield c
+
+    def glyph_variants(g):
+        if k == "seg":
+            parts = _split_with_components([tuple(o) for o in g])
+            parts = [[list(o) for o in p] for p in parts]
+            for i in range(len(parts)):
+                yield [o for j, p in enumerate(parts) if j != i for o in p]
+            for i, p in enumerate(parts):
+                if p[0][0] == "addComponent":
+                    t = p[0][1][1]
+                    if list(t) != [1, 0, 0, 1, 0, 0]:
+                        q = copy.deepcopy(parts)
+                        q[i][0][1][1] = [1, 0, 0, 1, 0, 0]
+                        yield [o for pp in q for o in pp]
+                    continue
+                for j in range(1, len(p) - 1):
+                    q = copy.deepcopy(parts)
+                    del q[i][j]
+                    yield [o for pp in q for o in pp]
+                for j, (op, args) in enumerate(p):
+                    if op in ("curveTo", "qCurveTo") and len(args) > 1:
+                        for d in range(len(args) - 1):
+                            q = copy.deepcopy(parts)
+                            del q[i][j][1][d]
+                            if q[i][j][1] != [None]:
+                                yield [o for pp in q for o in pp]
+                    for d, pt in enumerate(args):
+                        if pt is None or op == "addComponent":
+                            continue
+                        for z in (0, 1):
+                            for w in _simpler_numbers(pt[z]):
+                                q = copy.deepcopy(parts)
+                                q[i][j][1][d][z] = w
+                                yield [o for pp in q for o in pp]
+        else:
+            for i in range(len(g)):
+                yield [copy.deepcopy(it) for j, it in enumerate(g) if j != i]
+            for i, it in enumerate(g):
+                if "comp" in it:
+                    if list(it["comp"][1]) != [1, 0, 0, 1, 0, 0]:
+                        q = copy.deepcopy(g)
+                        q[i]["comp"][1] = [1, 0, 0, 1, 0, 0]
+                        yield q
+                    continue
+                for j in range(len(it["c"])):
+                    q = copy.deepcopy(g)
+                    del q[i]["c"][j]
+                    if _valid_pt_contour(q[i]["c"]):
+                        yield q
+                for j, p in enumerate(it["c"]):
+                    for z in (0, 1):
+                        for w in _simpler_numbers(p[z]):
+                            q = copy.deepcopy(g)
+                            q[i]["c"][j][z] = w
+                            yield q
+                    if p[3] or p[4] is not None or p[5] is not None:
+                        q = copy.deepcopy(g)
+                        q[i]["c"][j][3:] = [False, None, None]
+                        yield q
+
+    for v in glyph_variants(case[body]):
+        c = copy.deepcopy(case)
+        c[body] = v
+        yield c
+    for name in case["glyphs"]:
+        for v in glyph_variants(case["glyphs"][name]):
+            c = copy.deepcopy(case)
+            c["glyphs"][name] = v
+            yield c
+
+
+def shrink(f, key, tier, seed, budget_s=40):
+    from vf.runner import from_jsonable
+
+    case = from_jsonable(f["case"])
+
+    def fails(c):
+        if c["kind"] == "seg" and c["mode"] == "int" and not all_int(gp.tup_ops(c["ops"])):
+            return None
+        try:
+            fs = replay(c)
+        except BaseException:
+            return None
+        for g in fs:
+            if "%s|%s|%s" % (g["clause"], g["kind"], g["where"]) == key:
+                return g
+        return None
+
+    best = fails(case)
+    if best is None:
+        return None
+    t0 = time.time()
+    improved = True
+    while improved and time.time() - t0 < budget_s:
+        improved = False
+        for c in _candidates(case):
+            if time.time() - t0 > budget_s:
+                break
+            g = fails(c)
+            if g is not None:
+                case, best, improved = c, g, True
+                break
+    return best
 
 
 REQUIRED_LABELS = [
